@@ -1151,8 +1151,10 @@ def sun_compact(U, rtol=1e-12, atol=1e-12):
     # if Unitary, factorize into phase times Special Unitary
     SU = np.array(U, dtype=complex)
     if not np.isclose(det, 1, rtol=rtol, atol=atol):
-        SU *= complex(det) ** (-1 / n)
         global_phase = np.angle(det)
+    # a determinant that equals 1 only within the requested tolerance is normalised as well:
+    # the SU(2) factorisation checks its determinants much more strictly
+    SU *= complex(det) ** (-1 / n)
 
     # Decompose the matrix
     parameters_no_modes = _sun_parameters(SU, rtol, atol)
